@@ -594,8 +594,46 @@ func genHeap(g *c14Gen) {
 		g.fillers(15)
 		g.w.n(r.Intn(6))
 		a, b := pair()
-		g.w.nat(a)
-		g.w.nat(b)
+		// the in-use columns are signed (`(-?\d+)`: difference profiles): each column
+		// independently negative, mixed signs, -1, and magnitudes up to MinInt64 where no float
+		// arithmetic is involved (a count of exactly 0 still requires 0 bytes)
+		ia, ib := int64(a), int64(b)
+		floatPath := v2 && period > 1
+		switch r.Intn(10) {
+		case 0, 1:
+			ia, ib = -ia, -ib
+			if ia != 0 {
+				g.tag("heap:inuse-both-negative")
+			}
+		case 2:
+			ia = -ia
+			if ia != 0 && ib != 0 {
+				g.tag("heap:inuse-mixed-sign")
+			}
+		case 3:
+			if ia != 0 {
+				ib = -ib
+				if ib != 0 {
+					g.tag("heap:inuse-mixed-sign")
+				}
+			}
+		case 4:
+			if ia != 0 {
+				ia, ib = -1, -int64(1+r.Intn(5000))
+				g.tag("heap:inuse-count=-1")
+			}
+		case 5:
+			if !floatPath {
+				ia = []int64{math.MinInt64, math.MinInt64 + 1, -(1 << 62), math.MaxInt64, -1, 1, -3}[r.Intn(7)]
+				ib = []int64{math.MinInt64, math.MinInt64 + 1, math.MaxInt64, -(1 << 62) - 5, 0, -1}[r.Intn(6)]
+				g.tag("heap:inuse-extreme-magnitude")
+			}
+		}
+		if floatPath && ia != 0 && ib != 0 {
+			g.approx = true
+		}
+		g.w.int(ia)
+		g.w.int(ib)
 		if hasAlloc {
 			a, b = pair()
 		} else if r.Chance(50) {
@@ -621,38 +659,46 @@ func genContention(g *c14Gen) {
 	default:
 		g.w.n(2)
 	}
-	// sampling period x cycles/second: every combination of {absent, 0, 1, >1} x {absent, 0, >0};
-	// an attribute may be given twice (the later line wins), other attributes are mixed in
+	// sampling period x cycles/second: every combination of {absent, <0, 0, 1, >1} x {absent, <0, 0, >0}
+	// (strconv.ParseInt(_, 0, 64) admits negative values); an attribute may be given twice (the
+	// later line wins), other attributes are mixed in
 	type attr struct {
 		key int
-		v   uint64
+		v   int64
 	}
 	var attrs []attr
-	period, hz := uint64(1), uint64(0)
-	pcase, hcase := r.Intn(6), r.Intn(5)
+	period, hz := int64(1), int64(0)
+	pcase, hcase := r.Intn(8), r.Intn(7)
 	ptag, htag := "absent", "absent"
 	if pcase > 0 {
-		period = []uint64{0, 0, 1, 2, 100, 1000}[pcase]
+		period = []int64{0, 0, 1, 2, 100, 1000, -1, -100}[pcase]
 		if r.Chance(20) {
-			attrs = append(attrs, attr{1, []uint64{0, 1, 7}[r.Intn(3)]}) // overridden below
+			attrs = append(attrs, attr{1, []int64{0, 1, 7, -7}[r.Intn(4)]}) // overridden below
 		}
 		attrs = append(attrs, attr{1, period})
-		ptag = []string{"", "0", "1", ">1", ">1", ">1"}[pcase]
+		ptag = []string{"", "0", "1", ">1", ">1", ">1", "<0", "<0"}[pcase]
 	}
 	if hcase > 0 {
-		hz = []uint64{0, 0, 1000000, 1000000000, 3201000000}[hcase]
+		hz = []int64{0, 0, 1000000, 1000000000, 3201000000, -1, -1000000000}[hcase]
 		if r.Chance(20) {
-			attrs = append(attrs, attr{0, []uint64{0, 2000000000}[r.Intn(2)]}) // overridden below
+			attrs = append(attrs, attr{0, []int64{0, 2000000000, -2000000000}[r.Intn(3)]}) // overridden below
 		}
 		attrs = append(attrs, attr{0, hz})
-		htag = []string{"", "0", ">0", ">0", ">0"}[hcase]
+		htag = []string{"", "0", ">0", ">0", ">0", "<0", "<0"}[hcase]
 	}
 	g.tag("contention:period=" + ptag + ",hz=" + htag)
 	if r.Chance(50) {
-		attrs = append(attrs, attr{2, uint64(r.Intn(1 << 30))})
+		ms := int64(r.Intn(1 << 30))
+		switch r.Intn(6) {
+		case 0:
+			ms = -ms
+		case 1:
+			ms = []int64{math.MinInt64, math.MaxInt64, -1}[r.Intn(3)]
+		}
+		attrs = append(attrs, attr{2, ms})
 	}
 	if r.Chance(50) {
-		attrs = append(attrs, attr{3, uint64(r.Intn(100))})
+		attrs = append(attrs, attr{3, int64(r.Intn(100)) - 10})
 	}
 	// shuffle, keeping the relative order of equal keys (the later assignment must stay later)
 	for i := len(attrs) - 1; i > 0; i-- {
@@ -675,7 +721,7 @@ func genContention(g *c14Gen) {
 		g.fillers(15)
 		g.w.n(r.Intn(3))
 		g.w.n(a.key)
-		g.w.nat(a.v)
+		g.w.int(a.v)
 		g.w.bool(r.Bool())
 	}
 	if period > 0 && hz > 0 {
@@ -1207,7 +1253,7 @@ func bucket(n int) string {
 }
 
 func runC14(c *Ctx) {
-	c.Res.Rule = "random document models of the 7 legacy formats (count, heap incl. heap_v2/heapprofile/heap/growth/fragmentation, contention/mutex, threadz, binary CPU in 4 word layouts, binary Java CPU in 4 word layouts with location trailer, Java heapz/contentionz): 0–80 records, addresses from a pool with boundary values (0,1,2^32,2^63,2^64-1) and repeats, header variants, comment/blank lines, memory map in /proc/maps and brief form (adjacent, offset, non-executable, main-binary heuristics; glog prefixes on lines, name=value attribute lines and $name references in file fields); boundary-exact strategies for the parsers' thresholds: CPU sample counts 31/32/33/63/…/129 with exactly k ∈ {0,1,⌊n/32⌋,⌊n/32⌋+1,…} samples lacking the (fresh-address) signal-handler frame, for the first and for the second removal iteration, profiles without end marker (nstk bound), heap rates 0..5 (period 0/1/2 after halving), contention sampling period {absent,0,1,>1} × cycles/second {absent,0,>0}; printed by the Lean model, parsed by the real ParseData, compared with the documented conversion and with the Lean model of ParseData (decoder model + parser chain); non-trivial = at least one record with at least one address; distinct by document tokens"
+	c.Res.Rule = "random document models of the 7 legacy formats (count, heap incl. heap_v2/heapprofile/heap/growth/fragmentation, contention/mutex, threadz, binary CPU in 4 word layouts, binary Java CPU in 4 word layouts with location trailer, Java heapz/contentionz): 0–80 records, addresses from a pool with boundary values (0,1,2^32,2^63,2^64-1) and repeats, header variants, comment/blank lines, memory map in /proc/maps and brief form (adjacent, offset, non-executable, main-binary heuristics; glog prefixes on lines, name=value attribute lines and $name references in file fields); boundary-exact strategies for the parsers' thresholds: CPU sample counts 31/32/33/63/…/129 with exactly k ∈ {0,1,⌊n/32⌋,⌊n/32⌋+1,…} samples lacking the (fresh-address) signal-handler frame, for the first and for the second removal iteration, profiles without end marker (nstk bound), heap rates 0..5 (period 0/1/2 after halving), signed in-use columns of heap records (both negative, mixed signs, count -1, magnitudes up to MinInt64 where no float arithmetic is involved), contention sampling period {absent,<0,0,1,>1} × cycles/second {absent,<0,0,>0} and negative ms-since-reset; printed by the Lean model, parsed by the real ParseData, compared with the documented conversion and with the Lean model of ParseData (decoder model + parser chain); non-trivial = at least one record with at least one address; distinct by document tokens"
 	if c.Replay != "" {
 		var cs c14Case
 		if err := c.LoadReplay(&cs); err != nil {
